@@ -370,3 +370,146 @@ Lemma max_entries_example :
   o_ok (native (mk_sin (Some v) d 7%N 7%N 0 0 false) SUndelegate 5) = false /\
   o_ok (native (mk_sin (Some v) d 6%N 7%N 0 0 false) SUndelegate 5) = true.
 Proof. vm_compute. auto. Qed.
+
+(** ** the read-only method [delegation] = the native Query/Delegation *)
+
+(** an existing delegation: both report the shares and their worth in whole tokens, rounded DOWN *)
+Lemma delegation_query_eq_native v sh :
+  native_delegation_query (Some v) (Some sh) = QOk sh (truncate (tokens_from_shares v sh)) /\
+  precompile_delegation_query (Some v) (Some sh) = Some (sh, truncate (tokens_from_shares v sh)).
+Proof. split; reflexivity. Qed.
+
+(** no delegation record: the query says NotFound, the precompile answers (0, 0) *)
+Lemma delegation_query_not_found ov :
+  native_delegation_query ov None = QNotFound /\ precompile_delegation_query ov None = Some (0, 0).
+Proof. split; reflexivity. Qed.
+
+(** in every state the precompile reports a delegation exactly when the query does, with its numbers *)
+Lemma delegation_query_agrees ov od sh b :
+  precompile_delegation_query ov od = Some (sh, b) <->
+  native_delegation_query ov od = QOk sh b \/ (native_delegation_query ov od = QNotFound /\ sh = 0 /\ b = 0).
+Proof.
+  unfold precompile_delegation_query.
+  destruct (native_delegation_query ov od) as [| |s0 b0]; split; intros H.
+  - inversion H; subst. right. auto.
+  - destruct H as [H|[_ [-> ->]]]; [discriminate|reflexivity].
+  - discriminate.
+  - destruct H as [H|[H _]]; discriminate.
+  - inversion H; subst. left. reflexivity.
+  - destruct H as [H|[H _]]; [inversion H; reflexivity|discriminate].
+Qed.
+
+(** the numbers behind the balance: N = shares * tokens (a LegacyDec integer times an Int), S = the
+    validator's shares; TokensFromShares = Quo at 18 digits (banker's rounding), then TruncateInt *)
+Lemma tokens_from_shares_nonneg_form v sh :
+  0 <= sh -> 0 <= v_tokens v -> 0 < v_shares v ->
+  tokens_from_shares v sh = chop_nonneg (sh * v_tokens v * prec * prec / v_shares v) /\
+  0 <= sh * v_tokens v * prec * prec / v_shares v.
+Proof.
+  intros Hs HT HS. unfold tokens_from_shares, dquo, dmul_int.
+  pose proof prec_pos as Hp.
+  assert (H0 : 0 <= sh * v_tokens v * prec * prec) by nia.
+  rewrite Z.quot_div_nonneg by lia.
+  assert (Hq : 0 <= sh * v_tokens v * prec * prec / v_shares v) by (apply Z.div_pos; lia).
+  split; [apply chop_of_nonneg; exact Hq|exact Hq].
+Qed.
+
+Lemma div_prec_prec N S : 0 <= N -> 0 < S -> N * prec * prec / S / prec / prec = N / S.
+Proof.
+  intros HN HS. pose proof prec_pos as Hp.
+  rewrite !Z.div_div by lia.
+  replace (N * prec * prec) with (N * (prec * prec)) by ring.
+  replace (S * prec * prec) with (S * (prec * prec)) by ring.
+  apply Z.div_mul_cancel_r; nia.
+Qed.
+
+(** the truncation rule: the reported balance is floor(shares * tokens / total shares), or one more
+    when the quotient lies within 10^-18 / 2 of the next integer (the rounding of Quo) *)
+Lemma delegation_balance_floor v sh :
+  0 <= sh -> 0 <= v_tokens v -> 0 < v_shares v ->
+  sh * v_tokens v / v_shares v <= delegation_balance v sh <= sh * v_tokens v / v_shares v + 1.
+Proof.
+  intros Hs HT HS. unfold delegation_balance.
+  destruct (tokens_from_shares_nonneg_form v sh Hs HT HS) as [-> Hq].
+  set (q := sh * v_tokens v * prec * prec / v_shares v) in *.
+  pose proof prec_pos as Hp.
+  pose proof (chop_nonneg_range q Hq) as [Hlo Hhi].
+  rewrite truncate_nonneg by (apply chop_nonneg_nonneg; exact Hq).
+  assert (Hk : q / prec / prec = sh * v_tokens v / v_shares v) by (apply div_prec_prec; nia).
+  split.
+  - rewrite <- Hk. apply Z.div_le_mono; lia.
+  - rewrite <- Hk.
+    apply Z.le_trans with ((q / prec + prec) / prec).
+    + apply Z.div_le_mono; lia.
+    + replace (q / prec + prec) with (q / prec + 1 * prec) by ring.
+      rewrite Z.div_add by lia. lia.
+Qed.
+
+(** ... and exactly the floor unless the fractional part of the quotient is 1 - 10^-18 / 2 or more *)
+Lemma delegation_balance_exact v sh :
+  0 <= sh -> 0 <= v_tokens v -> 0 < v_shares v ->
+  2 * prec * ((sh * v_tokens v) mod v_shares v) < (2 * prec - 1) * v_shares v ->
+  delegation_balance v sh = sh * v_tokens v / v_shares v.
+Proof.
+  intros Hs HT HS Hfrac.
+  pose proof (delegation_balance_floor v sh Hs HT HS) as [Hlo _].
+  apply Z.le_antisymm; [|exact Hlo].
+  unfold delegation_balance.
+  destruct (tokens_from_shares_nonneg_form v sh Hs HT HS) as [-> Hq].
+  set (N := sh * v_tokens v) in *. set (S := v_shares v) in *.
+  set (q := N * prec * prec / S) in *.
+  pose proof prec_pos as Hp.
+  rewrite truncate_nonneg by (apply chop_nonneg_nonneg; exact Hq).
+  set (k := N / S). set (r := N mod S) in *.
+  assert (HN : N = S * k + r) by (apply Z.div_mod; lia).
+  assert (Hr : 0 <= r < S) by (apply Z.mod_pos_bound; lia).
+  assert (HqS : q * S <= N * prec * prec) by (unfold q; rewrite Z.mul_comm; apply Z.mul_div_le; lia).
+  pose proof (chop_nonneg_error q Hq) as He.
+  set (c := chop_nonneg q) in *.
+  assert (Hc2 : 2 * (c * prec) <= 2 * q + prec) by lia.
+  (* 2q + prec < 2 (k+1) prec^2 *)
+  assert (H1 : 2 * q * S < (2 * (k + 1) * prec * prec - prec) * S) by nia.
+  assert (H2 : 2 * q < 2 * (k + 1) * prec * prec - prec) by nia.
+  assert (H3 : c < (k + 1) * prec) by nia.
+  assert (H4 : c / prec < k + 1) by (apply Z.div_lt_upper_bound; lia).
+  lia.
+Qed.
+
+(** at exchange rate one (never slashed) the balance is the integer part of the shares *)
+Lemma delegation_balance_rate_one v sh :
+  0 <= sh -> 0 < v_tokens v -> v_shares v = of_int (v_tokens v) ->
+  delegation_balance v sh = truncate sh.
+Proof.
+  intros Hs HT HS.
+  pose proof prec_pos as Hp.
+  rewrite delegation_balance_exact; try lia.
+  - rewrite HS. unfold of_int. rewrite truncate_nonneg by lia.
+    rewrite (Z.mul_comm sh), Z.div_mul_cancel_l; lia.
+  - rewrite HS. unfold of_int. nia.
+  - rewrite HS. unfold of_int.
+    rewrite (Z.mul_comm sh), Zmult_mod_distr_l.
+    assert (0 <= sh mod prec < prec) by (apply Z.mod_pos_bound; lia). nia.
+Qed.
+
+(** two delegators, 10^18 and 10^18 + 10, the validator slashed by 5 %: the second delegation is worth
+    950000000000000009.75 tokens.  Query and precompile report ...009; rounding to the nearest integer
+    would report ...010, one unit more than can be undelegated *)
+Definition w_slashed : validator :=
+  mk_val 1900000000000000010 2000000000000000010000000000000000000 3%N false 0.
+Definition w_slashed_del : Z := 1000000000000000010000000000000000000.
+
+Lemma delegation_query_slashed_example :
+  precompile_delegation_query (Some w_slashed) (Some w_slashed_del) = Some (w_slashed_del, 950000000000000009) /\
+  native_delegation_query (Some w_slashed) (Some w_slashed_del) = QOk w_slashed_del 950000000000000009 /\
+  w_slashed_del * v_tokens w_slashed / v_shares w_slashed = 950000000000000009.
+Proof. vm_compute. auto. Qed.
+
+Lemma delegation_balance_rounded_refuted :
+  exists v sh, 0 <= sh /\ 0 <= v_tokens v /\ 0 < v_shares v /\
+    delegation_balance_rounded v sh = delegation_balance v sh + 1 /\
+    (* more than the delegation can give back: ValidateUnbondAmount refuses the reported balance *)
+    (exists sht, shares_from_tokens_trunc v (delegation_balance_rounded v sh) = Some sht /\ sh < sht).
+Proof.
+  exists w_slashed, w_slashed_del. vm_compute. repeat split; try discriminate.
+  eexists. split; reflexivity.
+Qed.
